@@ -8,6 +8,11 @@ import (
 	"time"
 )
 
+var fragToggle int
+
+// rawFragment: when set, runRaw delivers the stream in random small pieces
+var rawFragment *rng
+
 // runRaw sends an arbitrary byte stream, half-closes, and reports everything the server sent
 // plus how many request bytes it consumed (exact, because the in-memory pipe is synchronous).
 func (e *connEnv) runRaw(stream []byte) string {
@@ -15,8 +20,26 @@ func (e *connEnv) runRaw(stream []byte) string {
 	lc := &lockClient{c: e.ln.dial(), sessionStart: start, timeout: 5 * time.Second}
 	lc.pump()
 	wch := make(chan int, 1)
+	frag := rawFragment
 	go func() {
-		n, _ := lc.c.Write(stream)
+		// one Write per piece: over the in-memory pipe a Read never spans two Writes, so with `frag` set the
+		// server sees commands, paths and payloads arrive in several pieces (as over a real network)
+		n := 0
+		if frag == nil {
+			n, _ = lc.c.Write(stream)
+		} else {
+			for n < len(stream) {
+				k := 1 + frag.intn(frag.pick(3, 9, 40, 700))
+				if n+k > len(stream) {
+					k = len(stream) - n
+				}
+				m, err := lc.c.Write(stream[n : n+k])
+				n += m
+				if err != nil {
+					break
+				}
+			}
+		}
 		lc.c.CloseWrite()
 		wch <- n
 	}()
@@ -201,7 +224,11 @@ func c03Stream(o *out, r *rng, thorough bool) {
 				}
 				env := newConnEnv(root, aw, 65536)
 				defer env.close()
+				if fragToggle++; fragToggle%2 == 0 {
+					rawFragment = &rng{s: uint64(fragToggle) * 7919}
+				}
 				line := env.runRaw(v.stream)
+				rawFragment = nil
 				o.count("variant:" + v.kind)
 				o.emit(rawCase(aw, nodes, v.stream), line, "", fmt.Sprintf("%d:%s:%x", ti, v.kind, fnv1a(v.stream)))
 			})
